@@ -163,8 +163,16 @@ func ToGoStyle(a *AVP, style string) (*diam.AVP, error) {
 	return diam.NewAVP(U32(a.Code), uint8(a.Flags), U32(a.Vendor), d), nil
 }
 
+var vNames = func() map[[2]uint32]string {
+	m := map[[2]uint32]string{}
+	for _, d := range VDefs() {
+		m[[2]uint32{d.Code, d.Vendor}] = d.Name
+	}
+	return m
+}()
+
 func dataStyle(a *AVP, style string) (datatype.Type, error) {
-	if a.Kind != "grouped" || style == "newavp" {
+	if a.Kind != "grouped" || style == "newavp" || style == "byname" {
 		return Data(a)
 	}
 	g := &diam.GroupedAVP{}
@@ -195,6 +203,16 @@ func NewMessageStyle(m *Msg, dp *dict.Parser, style string) (*diam.Message, erro
 		a, err := ToGoStyle(&m.AVPs[i], style)
 		if err != nil {
 			return nil, err
+		}
+		if style == "byname" {
+			// Message.NewAVP with the dictionary name instead of the code, where the dictionary has one
+			if name, ok := vNames[[2]uint32{a.Code, a.VendorID}]; ok && gm.Header.ApplicationID == VApp {
+				if _, err := gm.NewAVP(name, a.Flags, a.VendorID, a.Data); err == nil {
+					continue
+				}
+			}
+			gm.AddAVP(a)
+			continue
 		}
 		if style == "novbit" && i%2 == 0 {
 			fl := a.Flags
